@@ -275,10 +275,16 @@ def flag_tree(rng, forest):
     return forest
 
 
+def wd_annot():
+    """Generated.LybTree.lybWdAnnot: lyb_print_metadata has the with-defaults block (false once fixes/F330.diff is applied)"""
+    txt = open(os.path.join(paths.LEAN, "LyModel", "Generated", "LybTree.lean")).read()
+    return re.search(r"def lybWdAnnot : Bool := (\w+)", txt).group(1) == "true"
+
+
 def expected_view(schema, forest, wd):
     """what print -> parse returns: under the tagged modes the tagged term nodes carry the annotation as metadata"""
     out = [n.clone() for n in forest]
-    if wd not in ("all-tag", "impl-tag"):
+    if wd not in ("all-tag", "impl-tag") or not wd_annot():
         return out
 
     def w(n):
